@@ -162,3 +162,25 @@ Definition spec_exchange (cfg : config) (rules : list rule) (t : target) (attemp
       then repeat (EvDial a) (S failures) ++ [EvUse a tls w]
       else repeat (EvDial a) (effective_attempts attempts)
   end.
+
+(* ------------------------------------------------------------------ localhost (for the hosts of the e2e pool) *)
+(* The classifier hp.isLocalhost is an oracle of this group (it is modelled and proved complete in C04).  So that
+   a change of it does not go unseen here, its answers are compared with this small reference on a fixed pool:
+   names (case-insensitively "localhost" or an alias of a loopback address in the hosts file, as reported by
+   hostsfile.LocalhostAliases), IPv4 dotted quads (127.x.y.z, 0.0.0.0), and the IPv6 spellings listed. *)
+Definition dec_octet (s : str) : option N :=
+  if negb (is_empty s) && forallb is_digit s && Nat.leb (length s) 3
+     && (Nat.eqb (length s) 1 || negb (first_is 48 s)) && (dec_value s <=? 255)
+  then Some (dec_value s) else None.
+Definition ipv4_octets (s : str) : option (list N) :=
+  match map dec_octet (split_byte 46 s) with
+  | [Some a; Some c; Some d; Some e] => Some [a; c; d; e]
+  | _ => None
+  end.
+Definition localhost_ref (aliases : list str) (h : str) : bool :=
+  let l := lower h in
+  str_eqb l (b "localhost") || mem l (map lower aliases) ||
+  match ipv4_octets l with
+  | Some (a :: r) => (a =? 127) || ((a =? 0) && forallb (N.eqb 0) r)
+  | _ => mem l [b "::1"; b "::"; b "0:0:0:0:0:0:0:1"; b "0:0:0:0:0:0:0:0"; b "::ffff:127.0.0.1"; b "::ffff:7f00:1"]
+  end.
